@@ -100,8 +100,8 @@ theorem validation_first_file_clean (cfg : Cfg) (hs : List Hunk) (f : Path) (fs 
     any call is issued -/
 theorem preflight_changes_nothing (id : Bytes) (entry : UInt8) (plan : Plan) (s : St)
     (h : preflightOk s.t plan.rens = false) :
-    applyPlanM { log := none, id := id, entry := entry } plan s = .err .destExists s := by
-  simp [applyPlanM, logM, logMF, bind, M.bind, pure, M.pure, getTree, h, Exec.throw]
+    applyPlanBody { log := none, id := id, entry := entry } plan s = .err .destExists s := by
+  simp [applyPlanBody, logM, logMF, bind, M.bind, pure, M.pure, getTree, h, Exec.throw]
 
 /-- failure_reports_failure_partial: for EVERY fault index k and every I/O errno (other than the two that
     `create_dir_all` interprets), if the content phase and the rename phase end normally then the fault point has not
@@ -116,6 +116,19 @@ theorem failure_reports_failure_partial (cfg : Cfg) (plan : Plan) (k : Nat) (e :
     unfold core
     exact reports_bind (reports_contentLoop k _ cfg hlog plan.hunks _) (fun _ => reports_renameLoop k _ cfg hlog _ _ _)
   exact (h s e perf s' hinj he1 he2 hn hrun).1
+
+/-- late_refusal_changes_nothing: with the unconditional up-front guard (`applyPlanMF true`, repo commit c3d511b) a plan
+    whose id is already recorded — applied, undone or redone, it does not matter — is refused before ANY call is issued:
+    the state is returned as it was, for every plan, tree and injection spec -/
+theorem late_refusal_changes_nothing (cfg : Cfg) (plan : Plan) (s : St) (hfresh : cfg.freshId = false)
+    (hdup : (loadHist s.t).contains cfg.entry = true) : applyPlanMF true cfg plan s = .err .dupId s := by
+  have hmem : cfg.entry ∈ loadHist s.t := by simpa using hdup
+  simp [applyPlanMF, bind, M.bind, getTree, hfresh, hmem, Exec.throw]
+
+/-- the structural tie: the model is built with the up-front guard because the source has it, unconditionally
+    (`if History::load(renamify_dir)?.find_entry(&plan.id).is_some()` ahead of `ApplyState::new`, read by
+    translate/execflags.py); a guard that is removed or made conditional breaks this theorem -/
+theorem dup_id_guard_flag : ExecFlags.dupIdRefusedUpFront = true := by decide
 
 /-- failure_reports_failure (call level): a failure injected at a call that is issued through `doOp` comes back as an
     error value; whether the PROGRAM then reports it depends on the call site — the swallowing sites are the witnesses
@@ -374,6 +387,36 @@ theorem probe_cleanup_retried_now : ExecFlags.probeCleanupRetried = true →
     outcome (run (bodyRename plA) (tA.take 2) (.fail 3 .EIO)) = .ok ∧
     fileAt (run (bodyRename plA) (tA.take 2) (.fail 3 .EIO)) pProbeFile = none ∧
     fileAt (run (bodyRename plA) (tA.take 2) (.fail 3 .EIO)) pProbe = none := by decide +kernel
+
+/-- the state after `plan; apply; undo`: the tree is back as planned, the history holds the entry and its revert -/
+def tAundone : Tree :=
+  [ ([b!"a.txt"], .file b!"foo" 0o644), ([b!"b.txt"], .file b!"foo" 0o600) ] ++
+  [ ([dotR], .dir 0o755), (pHist, .file (encodeHist [entryOld, entryApply, entryUndo]) 0o644) ]
+
+set_option maxRecDepth 100000 in
+/-- WITHOUT the up-front guard (`applyPlanMF false`: the guard removed, or — for an undone entry — made conditional as
+    in seeded/C04c) re-applying the stored plan of an undone operation edits both files and only then fails in
+    `add_entry`: a failed apply that changed the tree, with no fault injected and no stale file -/
+theorem late_dup_refusal_witness :
+    outcome (applyPlanMF false { log := some (pLogFile idNew), id := idNew, entry := entryApply } plA
+      { t := tAundone }) = .fail ∧
+    lookup (applyPlanMF false { log := some (pLogFile idNew), id := idNew, entry := entryApply } plA
+      { t := tAundone }).st.t [b!"a.txt"] = some (.file b!"bar" 0o644) ∧
+    loadHist (applyPlanMF false { log := some (pLogFile idNew), id := idNew, entry := entryApply } plA
+      { t := tAundone }).st.t = [entryOld, entryApply, entryUndo] := by decide +kernel
+
+set_option maxRecDepth 100000 in
+/-- … and with the guard the same command issues no call at all -/
+theorem late_dup_refusal_example :
+    outcome (run (bodyReapply plA) tAundone .none) = .fail ∧
+    (run (bodyReapply plA) tAundone .none).st.t = tAundone ∧
+    (run (bodyReapply plA) tAundone .none).st.trace = [] := by decide +kernel
+
+set_option maxRecDepth 100000 in
+/-- the tree-level model (`Apply.rollbackList`, used by C02/C01/C05) and this model agree on which pairs `rollback`
+    walks: the executed pairs reconstructed from the recorded ones are the pairs the rename loop executed -/
+theorem executed_pairs_agree_example :
+    Apply.executedFrom [] (perfOf [] (sortRens plN.rens)) = execOf [] (sortRens plN.rens) := by decide +kernel
 
 set_option maxRecDepth 100000 in
 theorem C04_full_false : ¬ C04_full := by
